@@ -270,6 +270,93 @@ func TestC02(t *testing.T) {
 		gen.Sample("pool-chain", map[string]any{"case": cs.name, "pool": pk, "verdict": v.Short(), "oracle": ok})
 	})
 
+	// (i') histories: a few long-lived Options values are used again and again (as a service does), with the
+	// same and different quotes, in any order. The oracle is the stateless one of (i): whatever happened
+	// before, a quote is accepted only if its chain leads to the pool of the Options value used.
+	gen.Prop(t, "histories-on-long-lived-options", gen.N(400, 30000), func(t *rapid.T) {
+		s := gen.NewStream(rapid.Uint64().Draw(t, "content"), "c02h")
+		a, b := pkiWorld(t, "pki-A", s), pkiWorld(t, "pki-B", s)
+		b.Sgx = a.Sgx
+		a.BuildLeaf()
+		b.BuildLeaf()
+		type quote struct {
+			name  string
+			chain []byte
+			raw   []byte
+		}
+		var quotes []quote
+		for _, cs := range cases {
+			switch cs.name {
+			case "genuine", "all-from-B", "leafB-intA-rootA", "leafB-intB-rootA", "leafA-intB-rootA":
+				w := *a
+				w.Q = a.Q.Clone()
+				chain, qeKey := cs.chain(a, b)
+				w.ChainOverride = chain
+				w.SignQuote()
+				gen.SignQe(w.Q, qeKey)
+				quotes = append(quotes, quote{cs.name, chain, w.Q.Encode()})
+			}
+		}
+		type optv struct {
+			name  string
+			o     *verify.Options
+			roots []*x509.Certificate
+		}
+		ts := a.Times
+		mk := func(name string, pool *x509.CertPool, roots ...*x509.Certificate) optv {
+			return optv{name, &verify.Options{TrustedRoots: pool, Now: &ts, Getter: gen.FailGetter{}}, roots}
+		}
+		er := embeddedIntelRoot(t)
+		opts := []optv{mk("pool-A", gen.PoolOf(a.PKI.Root), a.PKI.Root.X), mk("pool-B", gen.PoolOf(b.PKI.Root), b.PKI.Root.X), mk("nil-pool", nil, er)}
+		d := verify.DefaultOptions()
+		d.Now, d.Getter = &ts, gen.FailGetter{}
+		opts = append(opts, optv{"DefaultOptions()", d, []*x509.Certificate{er}})
+		var hist []string
+		last := [2]int{-1, -1}
+		step := func(oi, qi int) {
+			ov, q := opts[oi], quotes[qi]
+			hist = append(hist, ov.name+"<-"+q.name)
+			gen.Eval()
+			v := gen.Call(func() error { return verify.RawTdxQuote(q.raw, ov.o) })
+			ok, why := trustOracle(q.chain, ov.roots, a.Times.PckCertChain)
+			rp := map[string]any{"kind": "c02-history", "history": append([]string{}, hist...)}
+			if v.Accepted() && !ok {
+				gen.Fail(t, gen.Violation{Key: "history:trusts-outside-pool:" + q.name + "|" + ov.name, Oracle: "accepted => the leaf is a PCK certificate chaining via the quote's intermediate to the pool of the Options value used, whatever was verified before", Detail: fmt.Sprintf("after %v: accepted, oracle says: %s", hist, why), Replay: rp})
+			}
+			if !v.Accepted() && ((q.name == "genuine" && ov.name == "pool-A") || (q.name == "all-from-B" && ov.name == "pool-B")) {
+				gen.Fail(t, gen.Violation{Key: "history:rejects-trusted:" + q.name + "|" + ov.name, Oracle: "a genuine chain rooted in the pool is accepted, whatever was verified before", Detail: fmt.Sprintf("after %v: %s", hist, v), Replay: rp})
+			}
+			if last == [2]int{oi, qi} && !ok {
+				gen.NonTrivial("repeat-untrusted", ov.name, q.name, len(hist))
+			}
+			last = [2]int{oi, qi}
+		}
+		t.Repeat(map[string]func(*rapid.T){
+			"verify": func(t *rapid.T) {
+				step(rapid.IntRange(0, len(opts)-1).Draw(t, "options"), rapid.IntRange(0, len(quotes)-1).Draw(t, "quote"))
+			},
+			"verify-again": func(t *rapid.T) {
+				if last[0] < 0 {
+					t.Skip("nothing verified yet")
+				}
+				step(last[0], last[1])
+			},
+			"caller-extends-a-pool-the-api-handed-out": func(t *rapid.T) {
+				// a caller that wants "the defaults plus my lab root" adds to whatever pool DefaultOptions() returns
+				// (nil on this tree: then there is nothing to add to and the caller builds its own pool)
+				do := verify.DefaultOptions()
+				if do.TrustedRoots != nil {
+					do.TrustedRoots.AddCert(a.PKI.Root.X)
+					hist = append(hist, "DefaultOptions().TrustedRoots.AddCert(root-A)")
+				} else {
+					hist = append(hist, "DefaultOptions().TrustedRoots==nil")
+				}
+			},
+		})
+		gen.Class(fmt.Sprintf("history-length:%d", len(hist)/4*4))
+		gen.Sample("history", hist)
+	})
+
 	// (ii) root-of-trust configurations trust exactly what they list.
 	dir := t.TempDir()
 	gen.Prop(t, "root-of-trust-config", gen.N(1200, 60000), func(t *rapid.T) {
